@@ -14,6 +14,11 @@ Oracles (none of them shares code with strawberryfields.apps):
   number of alternatives handed to ``np.random.choice`` at every step (observed through a pass-through
   wrapper) must equal the size of the documented candidate set of that step ("ties are settled uniformly").
 * sample: list comprehensions.
+* "selected uniformly at random" (event_to_sample / orbit_to_sample): (a) the probability vector handed to
+  ``np.random.choice(n, p=...)`` when the orbit of the sample is drawn (observed through the same pass-through
+  wrapper) must be the exact orbit cardinalities divided by the event cardinality; (b) for events / orbits of
+  2..12 samples, 400 consecutive draws must produce every sample of the event / orbit (a sample that can never be
+  drawn is a violation; a uniform sampler misses one with probability < 1e-13).
 
 Randomness of the code under test is fixed with ``np.random.seed(<int of the case>)`` before every call.
 """
@@ -31,13 +36,18 @@ from vf.core import Sub
 
 RULE = ("similarity: every photon number 1..30 (orbits) and every orbit of <= 10 (quick) / 16 (thorough) photons on "
         "every mode count up to 60 plus {64,100,170,171,172,200,256,300} exhaustively; Hypothesis: orbits of up to 96 "
-        "photons on up to 300 modes, events (k <= 22 / 32, max_count 0..k+1, modes 1..300), random samples. A "
+        "photons on up to 300 modes, events (k <= 22 / 32, max_count 0..k+1, modes 1..300), random samples; a quarter of the "
+        "similarity cases takes its event and its orbit from the tables of all events (k <= 8, modes <= 6) / orbits (<= 6 photons) "
+        "with 2..12 samples and draws 400 more samples from each (support of the sampler). A "
         "cardinality case is non-trivial when the count exceeds 1; an event case when the event holds >= 2 samples. "
         "graphs: every labelled graph on <= 5 nodes x every non-empty node subset x "
         "{no weights, every weight vector in {1,2}^n (quick: only two vectors for n = 5)} exhaustively; Hypothesis: 2..9 nodes, contiguous or non-contiguous "
         "unsorted integer labels, three edge densities, weight vectors with ties (ints / floats / numpy array), seed "
         "cliques built greedily from a drawn permutation, arbitrary subsets as subgraphs, size windows, lists of start "
-        "subgraphs. A graph case is non-trivial when at least one step explored by the oracle has >= 2 base candidates "
+        "subgraphs; a third of the graphs has edges with a 'weight' attribute, a fifth of the weight vectors has zero / negative "
+        "entries, one clique seed / subgraph in ten is empty, a fifth of the cases repeats the calls with a node list naming "
+        "a node that is not in the graph (max label + 1, -1 or 37, at a drawn position). sample helpers: 1..8 or 11..16 modes. "
+        "A graph case is non-trivial when at least one step explored by the oracle has >= 2 base candidates "
         "(a choice exists); labels count how often the rule excludes a candidate, leaves a tie, and whether the "
         "weights break or keep a tie of the primary criterion. distinct = distinct JSON of the case")
 ASSUMPTIONS = [
@@ -48,13 +58,28 @@ ASSUMPTIONS = [
     "clique.search: one iteration = one growth phase followed by one swap; it stops after `iterations` rounds or when "
     "no swap is possible (module docstring 'Stopping')",
     "orbit_cardinality called directly with fewer modes than orbit entries may return 0 or raise ValueError",
+    "event_to_sample is observed to draw the orbit of its sample with one call np.random.choice(n, p=...): the non-zero entries "
+    "of p must equal (samples in the orbit)/(samples in the event) to 1e-9 (both sides are one correctly rounded division); "
+    "when no such call is observed this sub-oracle is skipped",
+    "support of event_to_sample / orbit_to_sample: for events / orbits of 2..12 samples, 401 seeded consecutive draws must produce "
+    "every sample; a uniform sampler fails this with probability < 12*(11/12)^401 < 1e-14 per case",
+    "an empty node list is a clique by the formula of is_clique's docstring (0 nodes, 0 edges) and is what to_subgraphs returns "
+    "for a sample without clicks: shrink([]) must return []; grow/swap/search/c_0/c_1 may refuse it with ValueError",
+    "a node list naming a node that is not in the graph is invalid input: any exception is accepted; only a *returned* node "
+    "set that is not a subset of the graph's nodes (or not a clique, for the clique routines) is a failure",
+    "an edge attribute 'weight' does not change adjacency, degree (number of neighbours) or density 2E/(n(n-1))",
     "python's math.factorial / math.comb and itertools are trusted; numpy's global RNG is only seeded, never read, by the oracle",
 ]
 REQUIRED_LABELS = {"all": ["modes_ge_25", "weights_with_tie", "weights_break_tie", "degree_mode", "shrink_needed",
-                           "grow_needed", "rule_excludes", "event_brute_force", "resize_hidden_steps"]}
+                           "grow_needed", "rule_excludes", "event_brute_force", "resize_hidden_steps",
+                           # generator audit: input classes that must be produced at every seed
+                           "event_orbit_weights_ge_2_orbits", "event_support_checked", "orbit_support_checked",
+                           "edge_attr_weight", "foreign_node", "weights_zero_or_negative", "clique_seed_size_0",
+                           "shrink_empty_subgraph", "sample_click_in_mode_ge_10"]}
 
 _STATE = {}
 DENS_TOL = 1e-12
+P_TOL = 1e-9
 
 
 def _env():
@@ -142,6 +167,33 @@ def long_orbit_prediction(k, nmax, m):
             den *= math.factorial(v)
         tot += math.factorial(m) // den
     return tot
+
+
+def arrangements(items):
+    """all distinct orderings of the multiset `items` (tuples), written without itertools.permutations so that the
+    cost is the number of results"""
+    cnt = Counter(int(x) for x in items)
+    keys = sorted(cnt)
+    out, cur = [], []
+
+    def rec(left):
+        if left == 0:
+            out.append(tuple(cur))
+            return
+        for v in keys:
+            if cnt[v]:
+                cnt[v] -= 1
+                cur.append(v)
+                rec(left - 1)
+                cur.pop()
+                cnt[v] += 1
+
+    rec(len(items))
+    return out
+
+
+SUPPORT_MAX = 12     # largest event / orbit whose support is checked by repeated draws
+SUPPORT_DRAWS = 400  # 12 * (11/12)**400 < 1e-14
 
 
 def as_exact_int(x):
@@ -282,8 +334,11 @@ def check_similarity(ctx, case):
     # --- event_to_sample / sample_to_event / sample_to_orbit
     np.random.seed(seed)
     smp = None
+    draws = int(case.get("draws", 0))
+    spy = None
     try:
-        smp = sim.event_to_sample(k, nmax, m)
+        with ChoiceSpy() as spy:
+            smp = sim.event_to_sample(k, nmax, m)
     except ValueError as exc:
         if nmax * m < k:
             ctx.label("event_rejected_documented")
@@ -309,6 +364,34 @@ def check_similarity(ctx, case):
         orb = sim.sample_to_orbit(list(smp))
         if sum(orb) != k or any(x < 1 or x > nmax for x in orb) or any(orb[i] < orb[i + 1] for i in range(len(orb) - 1)):
             return ctx.fail("sample_to_orbit.not_an_orbit", "sample_to_orbit(%s) = %s" % (smp, orb))
+        # "selected uniformly at random from the event", (a): when the orbit is drawn with np.random.choice(n, p=..)
+        # the probabilities must be (samples in the orbit) / (samples in the event); orbits without samples are ignored
+        ps = [q for q in spy.ps if q is not None]
+        if len(spy.ps) == 1 and len(ps) == 1 and exact > 0:
+            want_p = sorted(c / exact for c in (multinomial(o, m) for o in partitions(k) if not o or o[0] <= nmax) if c)
+            got_p = sorted(x for x in ps[0] if x != 0)
+            ctx.label("event_orbit_weights_checked")
+            if len(want_p) >= 2:
+                ctx.label("event_orbit_weights_ge_2_orbits")
+            if len(got_p) != len(want_p) or any(abs(a - b) > P_TOL for a, b in zip(got_p, want_p)):
+                return ctx.fail("event_to_sample.orbit_weights",
+                                "event_to_sample(%d, %d, %d) draws the orbit with probabilities %s; uniform over the %d samples of the event needs %s"
+                                % (k, nmax, m, [round(x, 6) for x in got_p][:12], exact, [round(x, 6) for x in want_p][:12]))
+        # (b): every sample of a small event must be produced by repeated draws
+        if draws >= SUPPORT_DRAWS and 2 <= exact <= SUPPORT_MAX and bf is not None:
+            event = set(t for t in itertools.product(range(min(nmax, k) + 1), repeat=m) if sum(t) == k)
+            seen = {tuple(int(x) for x in smp)}
+            try:
+                for _ in range(draws):
+                    seen.add(tuple(int(x) for x in sim.event_to_sample(k, nmax, m)))
+            except Exception as exc:  # pylint: disable=broad-except
+                return ctx.crash(exc, "event_to_sample")
+            ctx.label("event_support_checked")
+            if not seen <= event:
+                return ctx.fail("event_to_sample.not_in_event", "event_to_sample(%d, %d, %d) produced %s" % (k, nmax, m, sorted(seen - event)[:3]))
+            if seen != event:
+                return ctx.fail("event_to_sample.support", "event_to_sample(%d, %d, %d): %d draws (np seed %d) never produced %s of the %d samples of the event"
+                                % (k, nmax, m, draws + 1, seed, [list(t) for t in sorted(event - seen)][:6], exact))
 
     # --- orbit_to_sample / sample_to_orbit
     orbit = [int(x) for x in case["orbit"]]
@@ -336,6 +419,21 @@ def check_similarity(ctx, case):
         back = sim.sample_to_orbit(list(s2))
         if back != orbit:
             return ctx.fail("sample_to_orbit.roundtrip", "sample_to_orbit(orbit_to_sample(%s, %d) = %s) = %s" % (orbit, om, s2, back))
+        # "selected uniformly at random from the orbit": every arrangement of a small orbit must be produced
+        if draws >= SUPPORT_DRAWS and 2 <= multinomial(orbit, om) <= SUPPORT_MAX:
+            allarr = set(arrangements(orbit + [0] * (om - len(orbit))))
+            if len(allarr) != multinomial(orbit, om):
+                raise AssertionError("oracle disagreement: %d arrangements vs multinomial %d for %s" % (len(allarr), multinomial(orbit, om), case))
+            seen = {tuple(int(x) for x in s2)}
+            try:
+                for _ in range(draws):
+                    seen.add(tuple(int(x) for x in sim.orbit_to_sample(list(orbit), om)))
+            except Exception as exc:  # pylint: disable=broad-except
+                return ctx.crash(exc, "orbit_to_sample")
+            ctx.label("orbit_support_checked")
+            if seen != allarr:
+                return ctx.fail("orbit_to_sample.support", "orbit_to_sample(%s, %d): %d draws (np seed %d) produced %s outside the orbit and never %s"
+                                % (orbit, om, draws + 1, seed, [list(t) for t in sorted(seen - allarr)][:3], [list(t) for t in sorted(allarr - seen)][:6]))
 
     # --- conversions on an arbitrary sample
     smp = [int(x) for x in case["sample"]]
@@ -633,6 +731,7 @@ class ChoiceSpy:
 
     def __enter__(self):
         self.sizes = []
+        self.ps = []  # the `p` argument of every call (None = uniform)
         self.orig = np.random.choice
         spy = self
 
@@ -641,6 +740,8 @@ class ChoiceSpy:
                 spy.sizes.append(int(a) if np.ndim(a) == 0 else len(a))
             except Exception:  # pylint: disable=broad-except
                 spy.sizes.append(-1)
+            p = kwargs.get("p", args[2] if len(args) > 2 else None)
+            spy.ps.append(None if p is None else [float(x) for x in p])
             return spy.orig(a, *args, **kwargs)
 
         np.random.choice = choice
@@ -660,8 +761,50 @@ def build(case):
     og = OG(nodes, case["edges"], weights)
     g = nx.Graph()
     g.add_nodes_from(nodes)
-    g.add_edges_from((int(a), int(b)) for a, b in case["edges"])
+    ew = case.get("edge_w")
+    if ew:
+        # edges carrying a "weight" attribute (what nx.Graph(<weighted adjacency matrix>) produces): the documented
+        # quantities (adjacency, degree = number of neighbours, density = 2E/(n(n-1))) do not depend on it
+        for (a, b), x in zip(case["edges"], ew):
+            g.add_edge(int(a), int(b), weight=x)
+    else:
+        g.add_edges_from((int(a), int(b)) for a, b in case["edges"])
     return og, g
+
+
+def with_foreign(case, S):
+    """S with the node case['foreign'] (not a node of the graph) inserted at case['foreign_pos']"""
+    S = list(S)
+    pos = min(int(case.get("foreign_pos", 0)), len(S))
+    return S[:pos] + [int(case["foreign"])] + S[pos:]
+
+
+def foreign_call(ctx, og, what, call, want_clique):
+    """a node list naming a node that is not in the graph: the routines reject it with ValueError; whatever a routine does
+    instead, it must not *return* node sets that are not subsets of the graph's nodes ("cliques of the input graph",
+    "genuine node subsets").  Returns False after a failure."""
+    try:
+        res = call()
+    except ValueError:
+        ctx.label("foreign_node_rejected")
+        return True
+    except Exception:  # pylint: disable=broad-except
+        ctx.label("foreign_node_other_exception")  # invalid input: any exception is a refusal
+        return True
+    sets = []
+    if isinstance(res, dict):
+        for v in res.values():
+            if isinstance(v, list) and v and isinstance(v[0], tuple):
+                sets.extend(ints(t[1]) for t in v)
+            else:
+                sets.append(ints(v))
+    else:
+        sets.append(ints(res))
+    for nodes in sets:
+        if not set(nodes) <= set(og.nodes) or (want_clique and not og.is_clique(nodes)):
+            ctx.fail("%s.foreign_node_accepted" % what, "%s returned %s for an input naming a node that is not in the graph (nodes %s)" % (what, nodes, og.nodes))
+            return False
+    return True
 
 
 def select_arg(case, mode):
@@ -722,6 +865,12 @@ def do_clique_part(ctx, case, og, g, stats, labels):
     try:
         got0 = cl.c_0(list(C), g)
         got1 = cl.c_1(list(C), g)
+    except ValueError as exc:
+        if not C:
+            labels.append("empty_seed_rejected")  # an empty seed (to_subgraphs of a sample without clicks) may be refused
+            return True
+        ctx.crash(exc, "c_0/c_1")
+        return False
     except Exception as exc:  # pylint: disable=broad-except
         ctx.crash(exc, "c_0/c_1")
         return False
@@ -746,6 +895,12 @@ def do_clique_part(ctx, case, og, g, stats, labels):
         try:
             with ChoiceSpy() as spy:
                 out = cl.grow(arg, g, node_select=sel)
+        except ValueError as exc:
+            if not C:
+                labels.append("empty_seed_rejected")
+                return True
+            ctx.crash(exc, "grow")
+            return False
         except Exception as exc:  # pylint: disable=broad-except
             ctx.crash(exc, "grow")
             return False
@@ -810,6 +965,17 @@ def do_clique_part(ctx, case, og, g, stats, labels):
         if not search_reach(og, C, out, iters, mode, stats):
             ctx.fail("clique_search.rule_violated", "search(%s, iterations=%d, %s) = %s is not reachable by rule-conforming grow/swap rounds" % (C, iters, mode, out))
             return False
+    if case.get("foreign") is not None:
+        Cf = with_foreign(case, C)
+        labels.append("foreign_node")
+        for mode in modes_of(case):
+            sel = select_arg(case, mode)
+            for what, call in (("grow", lambda: cl.grow(list(Cf), g, node_select=sel)),
+                               ("swap", lambda: cl.swap(list(Cf), g, node_select=sel)),
+                               ("clique_search", lambda: cl.search(list(Cf), g, iters, node_select=sel))):
+                np.random.seed(seed)
+                if not foreign_call(ctx, og, what, call, True):
+                    return False
     if not graph_unchanged(og, g):
         ctx.fail("clique.mutates_graph", "input graph changed")
         return False
@@ -822,10 +988,17 @@ def do_shrink_part(ctx, case, og, g, stats, labels):
     seed = int(case["np_seed"])
     if not og.is_clique(S):
         labels.append("shrink_needed")
+    if not S:
+        labels.append("shrink_empty_subgraph")
     for mode in modes_of(case):
         if mode == "degree":
             continue  # documented for uniform / weights only
         sel = select_arg(case, mode)
+        if case.get("foreign") is not None:
+            Sf = with_foreign(case, S)
+            np.random.seed(seed)
+            if not foreign_call(ctx, og, "shrink", lambda: cl.shrink(list(Sf), g, node_select=sel), True):
+                return False
         arg = list(S)
         np.random.seed(seed)
         try:
@@ -880,6 +1053,15 @@ def do_resize_part(ctx, case, og, g, stats, labels):
         if mode == "degree":
             continue
         sel = select_arg(case, mode)
+        if case.get("foreign") is not None:
+            Sf = with_foreign(case, S)
+            labels.append("foreign_node")
+            np.random.seed(seed)
+            if not foreign_call(ctx, og, "resize", lambda: sg.resize(list(Sf), g, lo, hi, node_select=sel), False):
+                return False
+            np.random.seed(seed)
+            if not foreign_call(ctx, og, "subgraph_search", lambda: sg.search([list(S), list(Sf)], g, lo, hi, max_count=3, node_select=sel), False):
+                return False
         arg = list(S)
         np.random.seed(seed)
         try:
@@ -1032,6 +1214,10 @@ def check_graph(ctx, case):
             labels.append("weights_as_array")
     if og.nodes != list(range(len(og.nodes))):
         labels.append("noncontiguous_labels")
+    if case.get("edge_w"):
+        labels.append("edge_attr_weight")
+    if case.get("weights") is not None and min(case["weights"]) <= 0:
+        labels.append("weights_zero_or_negative")
     # classification needs the oracle's own exploration, so the case is noted after the parts ran
     try:
         ok = True
@@ -1064,6 +1250,8 @@ def check_sample(ctx, case):
         labels.append("to_subgraphs_relabelled")
     if any(x > 1 for s in samples for x in s):
         labels.append("pnr_counts")
+    if any(c > 0 for s in samples for c in s[10:]) and any(c > 0 for s in samples for c in s[2:10]):
+        labels.append("sample_click_in_mode_ge_10")
     ctx.note(case, nontrivial=len(set(totals)) >= 2, labels=labels)
 
     arg = [list(s) for s in samples]
@@ -1142,6 +1330,9 @@ def selftest():
     assert event_count_closed(30, 3, 200) == event_count_orbits(30, 3, 200)
     assert long_orbit_prediction(4, 4, 2) == 6 and long_orbit_prediction(4, 4, 6) == event_count_closed(4, 4, 6)
     assert as_exact_int(300.0) == 300 and as_exact_int(299.5) is None and as_exact_int(np.int64(7)) == 7
+    assert arrangements([1, 1, 0]) == [(0, 1, 1), (1, 0, 1), (1, 1, 0)] and len(arrangements([2, 1, 0, 0])) == 12 == multinomial([2, 1], 4)
+    assert [4, 2, 3] in TINY_EVENTS and [[2, 1], 3] in TINY_ORBITS and all(2 <= event_count_bf(*e) <= SUPPORT_MAX for e in TINY_EVENTS)
+    assert SUPPORT_MAX * (1 - 1 / SUPPORT_MAX) ** SUPPORT_DRAWS < 1e-13
 
     # docstring examples of clique.py typed by hand
     K10 = OG(range(10), itertools.combinations(range(10), 2))
@@ -1242,15 +1433,40 @@ def cardinality_case(draw):
     return {"orbit": orbit, "modes": max(0, len(orbit) + extra)}
 
 
+def _tiny_tables():
+    """events and orbits with 2..SUPPORT_MAX samples (the support of the sampler is checked on them)"""
+    ev, ob = [], []
+    for k in range(1, 9):
+        for nmax in range(1, k + 1):
+            for m in range(1, 7):
+                if 2 <= event_count_closed(k, nmax, m) <= SUPPORT_MAX:
+                    ev.append([k, nmax, m])
+    for k in range(1, 7):
+        for o in partitions(k):
+            for om in range(len(o), 13):
+                if 2 <= multinomial(o, om) <= SUPPORT_MAX and (len(o) >= 2 or om <= 4):
+                    ob.append([list(o), om])
+    return ev, ob
+
+
+TINY_EVENTS, TINY_ORBITS = _tiny_tables()
+
+
 @st.composite
 def similarity_case(draw, tier):
     kmax = 22 if tier == "quick" else 32
+    sample = draw(st.lists(st.integers(0, 5), min_size=1, max_size=10))
+    if draw(st.integers(0, 3)) == 0:
+        # a small event and a small orbit: repeated draws must produce every one of their samples
+        k, nmax, modes = draw(st.sampled_from(TINY_EVENTS))
+        orbit, om = draw(st.sampled_from(TINY_ORBITS))
+        return {"k": k, "nmax": nmax, "modes": modes, "np_seed": draw(st.integers(0, 2 ** 32 - 1)), "orbit": list(orbit),
+                "orbit_modes": om, "sample": sample, "sample_nmax": draw(st.integers(0, 5)), "draws": SUPPORT_DRAWS}
     k = draw(st.one_of(st.integers(0, 10), st.integers(0, kmax)))
     nmax = draw(st.one_of(st.integers(0, k + 1), st.integers(1, 3)))
     modes = draw(st.one_of(st.integers(1, 6), st.integers(1, 40), st.integers(1, 300)))
     orbit = draw(orbit_strategy(8, 6))
     om = max(0, len(orbit) + draw(st.one_of(st.integers(0, 12), st.integers(-2, 0))))
-    sample = draw(st.lists(st.integers(0, 5), min_size=1, max_size=10))
     return {"k": k, "nmax": nmax, "modes": modes, "np_seed": draw(st.integers(0, 2 ** 32 - 1)), "orbit": orbit,
             "orbit_modes": om, "sample": sample, "sample_nmax": draw(st.integers(0, 5))}
 
@@ -1266,10 +1482,19 @@ def graph_base(draw, nmin=2, nmax=9):
     bias = draw(st.integers(1, 3))
     bits = draw(st.lists(st.integers(0, 3), min_size=len(pairs), max_size=len(pairs)))
     edges = [[nodes[a], nodes[b]] for (a, b), x in zip(pairs, bits) if x < bias]
-    pool = draw(st.sampled_from([[1, 2], [1, 2, 3], [0.5, 1.0, 2.5], [1, 2, 3, 4, 5]]))
+    # "real node weights": the last pool has a zero (as in the waw_matrix docstring) and a negative weight
+    pool = draw(st.sampled_from([[1, 2], [1, 2, 3], [0.5, 1.0, 2.5], [1, 2, 3, 4, 5], [-1.5, 0, 2]]))
     weights = draw(st.lists(st.sampled_from(pool), min_size=n, max_size=n))
-    return {"nodes": nodes, "edges": edges, "weights": weights, "w_array": draw(st.booleans()),
+    case = {"nodes": nodes, "edges": edges, "weights": weights, "w_array": draw(st.booleans()),
             "np_seed": draw(st.integers(0, 2 ** 32 - 1))}
+    if draw(st.integers(0, 2)) == 0:
+        # a graph whose edges carry a "weight" attribute, as nx.Graph(<weighted adjacency matrix>) gives
+        case["edge_w"] = draw(st.lists(st.sampled_from([2.0, 0.5, 3, 0.25]), min_size=len(edges), max_size=len(edges)))
+    if draw(st.integers(0, 4)) == 0:
+        # the node lists are also tried with one node that is not in the graph (just beyond the labels, -1, far away)
+        case["foreign"] = draw(st.sampled_from([max(nodes) + 1, -1, 37]))
+        case["foreign_pos"] = draw(st.integers(0, n))
+    return case
 
 
 def _subset(draw, nodes, lo, hi):
@@ -1283,12 +1508,14 @@ def clique_case(draw):
     nodes = case["nodes"]
     adj = OG(nodes, case["edges"]).adj
     perm = draw(st.permutations(nodes))
-    target = draw(st.integers(1, len(nodes)))
+    # about one seed / subgraph in ten is empty: to_subgraphs maps a sample without clicks to []
+    target = 0 if draw(st.integers(0, 9)) == 0 else draw(st.integers(1, len(nodes)))
     C = []
     for v in perm:
         if len(C) < target and all(v in adj[u] for u in C):
             C.append(v)
-    case.update(clique=C, sub=_subset(draw, nodes, 1, len(nodes)), iterations=draw(st.integers(1, 4)), parts=["clique", "shrink"])
+    sub = [] if draw(st.integers(0, 9)) == 0 else _subset(draw, nodes, 1, len(nodes))
+    case.update(clique=C, sub=sub, iterations=draw(st.integers(1, 4)), parts=["clique", "shrink"])
     return case
 
 
@@ -1310,7 +1537,8 @@ def resize_case(draw):
 
 @st.composite
 def sample_case(draw):
-    M = draw(st.integers(1, 8))
+    # a third of the cases has 11..16 modes: mode indices / node positions with two digits
+    M = draw(st.one_of(st.integers(1, 8), st.integers(1, 8), st.integers(11, 16)))
     top = draw(st.sampled_from([1, 1, 2, 4]))
     samples = draw(st.lists(st.lists(st.integers(0, top), min_size=M, max_size=M), min_size=1, max_size=8))
     if draw(st.booleans()):
@@ -1342,19 +1570,19 @@ SUBS = [
         rule="Hypothesis: orbits of 1..12 parts (each <= 8) on up to 300 modes, a few with fewer modes than parts"),
     Sub("similarity_hyp", check=check_similarity, strategy=lambda ctx: similarity_case(ctx.tier),
         examples={"quick": 1000, "thorough": 5000}, shards={"quick": 2, "thorough": 16},
-        rule="Hypothesis: events (k, max_count_per_mode, modes) incl. k = 0, empty events and modes < k; orbit_to_sample / event_to_sample round trips; conversions of arbitrary samples"),
+        rule="Hypothesis: events (k, max_count_per_mode, modes) incl. k = 0, empty events and modes < k; orbit_to_sample / event_to_sample round trips; orbit probabilities offered to the RNG; support of the samplers on events / orbits of 2..12 samples (400 draws); conversions of arbitrary samples"),
     Sub("graphs_enum", check=check_graph, enumerate=enum_graphs, exhaustive=True,
         shards={"quick": 6, "thorough": 16}, budget={"quick": 200, "thorough": 1500},
         rule="every labelled graph on <= 5 nodes x every non-empty node subset as seed x {uniform+degree, every weight vector in {1,2}^n (quick: two vectors for n = 5)}: is_clique, c_0, c_1, grow, swap, search, shrink, resize(1..n-1)"),
     Sub("clique_hyp", check=check_graph, strategy=lambda ctx: clique_case(),
         examples={"quick": 1500, "thorough": 6000}, shards={"quick": 2, "thorough": 16},
-        rule="Hypothesis: graphs on 1..9 nodes, greedy clique seeds, arbitrary subsets, all selection modes: is_clique, c_0, c_1, grow, swap, search (1..4 iterations), shrink"),
+        rule="Hypothesis: graphs on 1..9 nodes (optionally with edge 'weight' attributes, zero / negative node weights), greedy clique seeds incl. the empty one, arbitrary subsets incl. the empty one, node lists with a node that is not in the graph, all selection modes: is_clique, c_0, c_1, grow, swap, search (1..4 iterations), shrink"),
     Sub("resize_hyp", check=check_graph, strategy=lambda ctx: resize_case(),
         examples={"quick": 1500, "thorough": 6000}, shards={"quick": 2, "thorough": 16},
-        rule="Hypothesis: graphs on 2..9 nodes, start subgraphs of any size (incl. outside the size window), uniform and weighted selection: resize and subgraph.search (1..5 start subgraphs, max_count 1..4)"),
+        rule="Hypothesis: graphs on 2..9 nodes (optionally with edge 'weight' attributes, zero / negative node weights), start subgraphs of any size (incl. outside the size window), start subgraphs naming a node that is not in the graph, uniform and weighted selection: resize and subgraph.search (1..5 start subgraphs, max_count 1..4)"),
     Sub("sample_hyp", check=check_sample, strategy=lambda ctx: sample_case(),
         examples={"quick": 1000, "thorough": 6000}, shards={"quick": 1, "thorough": 4},
-        rule="Hypothesis: 1..8 samples on 1..8 modes (threshold and PNR counts): postselect, modes_from_counts, to_subgraphs (range and relabelled graphs), seed, feature_vector_*_sampling"),
+        rule="Hypothesis: 1..8 samples on 1..8 or 11..16 modes (threshold and PNR counts): postselect, modes_from_counts, to_subgraphs (range and relabelled graphs), seed, feature_vector_*_sampling"),
 ]
 
 MANIFEST = {
@@ -1362,12 +1590,14 @@ MANIFEST = {
     "text": ("orbits(k) is compared with an independent partition generator for every k <= 30; orbit_cardinality with exact integer "
              "multinomials for every small orbit on every mode count up to 60 (plus selected counts up to 300) and for random orbits on "
              "up to 300 modes; event_cardinality with the inclusion-exclusion closed form and with brute-force counting where feasible; "
-             "sample/orbit/event conversions round-trip under seeded sampling. For every labelled graph on <= 5 nodes, "
+             "sample/orbit/event conversions round-trip under seeded sampling; the orbit probabilities event_to_sample hands to the RNG are the exact "
+             "cardinality ratios and, on events / orbits of 2..12 samples, repeated draws reach every sample. For every labelled graph on <= 5 nodes, "
              "every seed subset and every weight vector in {1,2}^n (quick tier: two weight vectors on 5 nodes), and for random graphs up to 9 nodes, the results of grow, swap, search, "
              "shrink, resize and subgraph.search are checked to be cliques / node subsets of the promised sizes and to be reachable by "
              "single steps that obey the documented selection rule (degree, weight, uniform ties), densities are recomputed by hand, and "
              "the number of alternatives offered to the random tie-break equals the documented candidate set. Exhaustive only for the "
-             "enumerated sub-spaces; the distribution of the random tie-break itself is not tested statistically."),
+             "enumerated sub-spaces; the distribution of the random tie-break itself is not tested statistically (only the candidate sets / "
+             "probabilities offered to the RNG and the support of the two samplers)."),
     "note": ("Trusted: math.factorial/math.comb/itertools, networkx only as the container the routines take as input (the oracle keeps its own "
              "adjacency sets), numpy's seeding. prob_*/feature_vector_* functions that need a GBS simulation are outside this check (C20)."),
 }
